@@ -19,7 +19,11 @@ META = {
               "removal alone; thorough also: 5 entries in a 4-bit window, "
               "three fully specified same-route entries followed by two "
               "entries with other routes and concrete masks (1100 and 1001; keys "
-              "symbolic); all entries share a symbolic 32-bit prefix P "
+              "symbolic), and two shapes in which every bit outside the "
+              "window is X in every entry (no bit significant in all "
+              "entries; window masks 1011,1110,1101,0101,0011 and "
+              "011,110,101,001); otherwise all entries share a symbolic "
+              "32-bit prefix P "
               "(optionally with one common X bit outside the window) and "
               "differ only inside the window where both key and mask are fully "
               "symbolic; routes per entry from a fixed pattern over three "
@@ -126,7 +130,7 @@ def _spread(v, bits):
 
 
 def make_table(ctx, n, W, routes, srcs, discipline, common_x, exact=0,
-               masks=None, bits=None):
+               masks=None, bits=None, nohi=False):
     """`bits`: the W bit positions of the window (default: the low W bits);
     keys and masks are symbolic there and shared / fully specified
     elsewhere."""
@@ -160,8 +164,13 @@ def make_table(ctx, n, W, routes, srcs, discipline, common_x, exact=0,
             ctx.assume((kw & ~mw & lowwin) == 0)
         if not plain:
             kw, mw = _spread(kw, bits), _spread(mw, bits)
-        key = (P & (hi & ~cx)) | kw
-        mask = const(hi & ~cx) | mw
+        if nohi:
+            # every bit outside the window is X in every entry: with the
+            # unit's masks no bit is significant in all entries
+            key, mask = kw, mw
+        else:
+            key = (P & (hi & ~cx)) | kw
+            mask = const(hi & ~cx) | mw
         route = R[routes[i]]
         table.append(RoutingTableEntry(route, key, mask,
                                        _sources(srcs[i], route)))
@@ -189,7 +198,7 @@ def _target(ctx, n, mode):
 
 
 def h_min(ctx, which, n, W, routes, srcs, discipline, target, common_x=False,
-          exact=0, masks=None, bits=None):
+          exact=0, masks=None, bits=None, nohi=False):
     from rig.routing_table import MinimisationFailedError
     from rig.routing_table import remove_default_routes as rdr
     from rig.routing_table import ordered_covering as oc
@@ -197,7 +206,7 @@ def h_min(ctx, which, n, W, routes, srcs, discipline, target, common_x=False,
     import rig.routing_table as rt
 
     table = make_table(ctx, n, W, routes, srcs, discipline, common_x, exact,
-                       masks, bits)
+                       masks, bits, nohi)
     orig = list(table)
     snapshot = [(e.route, e.key, e.mask, set(e.sources)) for e in table]
     t = _target(ctx, n, target)
@@ -576,17 +585,18 @@ def units(tier, seed):
     us = [Unit("empty table", h_empty)]
 
     def add(which, n, W, routes, srcs, disc, target, split=0, cx=False,
-            wit=("returned",), exact=0, masks=None, bits=None):
-        name = "%s n=%d W=%d routes=%s srcs=%s %s target=%s%s%s%s%s" % (
+            wit=("returned",), exact=0, masks=None, bits=None, nohi=False):
+        name = "%s n=%d W=%d routes=%s srcs=%s %s target=%s%s%s%s%s%s" % (
             which, n, W, routes, srcs, disc, target, " cx" if cx else "",
             " exact=%d" % exact if exact else "",
             " masks=" + ",".join(format(m, "0%db" % W) for m in masks)
             if masks else "",
-            " bits=" + ",".join(map(str, bits)) if bits else "")
+            " bits=" + ",".join(map(str, bits)) if bits else "",
+            " all other bits X" if nohi else "")
         us.append(Unit(name, h_min, dict(
             which=which, n=n, W=W, routes=routes, srcs=srcs,
             discipline=disc, target=target, common_x=cx, exact=exact,
-            masks=masks, bits=bits),
+            masks=masks, bits=bits, nohi=nohi),
             split=split, witnesses=wit, path_timeout_s=300,
             timeout_ms=300000))
 
@@ -634,6 +644,15 @@ def units(tier, seed):
     # merged entry lands above an entry of intermediate generality
     add("oc_raw", 5, 5, "ABAAB", "uuuuu", "sorted", "none", split=8,
         masks=(31, 21, 22, 19, 1), wit=("returned", "shrunk"))
+    # a merge of four entries whose masks have no bit in common (every bit
+    # outside the window is X, the first three window masks AND to zero),
+    # the last of them alone bringing a second source direction
+    add("oc", 5, 4, "AACAA", "ddudo", "orthogonal", "none", split=6,
+        masks=(0b1011, 0b1110, 0b1101, 0b0101, 0b0011), nohi=True,
+        wit=("returned", "shrunk"))
+    add("chain", 4, 3, "AAAA", "dddo", "sorted", "sym", split=5,
+        masks=(0b011, 0b110, 0b101, 0b001), nohi=True,
+        wit=("returned", "shrunk"))
     # one inductive merge step from an arbitrary state satisfying the
     # invariant (alias shapes that whole runs only reach on larger tables)
     def step(W, routes, srcs, nal, split=6):
